@@ -255,7 +255,10 @@ Inductive claim :=
 | CChanged (q : path).       (* the schema element shown at node q changed (query arg/result type) *)
 
 (* t_ignored: what the exported IgnoreCompatibilityErrors(errs, [claimed path]) returned *)
-Record trace := mkTrace { t_old : tree; t_new : tree; t_claim : claim; t_errs : list cerr; t_ignored : list cerr }.
+(* t_old / t_new are the REAL trees (appdefcompat.VerifBuildTree); t_treediff: the paths at which they
+   differ from the harness's independent transcription of buildTree (empty on the unchanged code) *)
+Record trace := mkTrace { t_old : tree; t_new : tree; t_claim : claim; t_errs : list cerr; t_ignored : list cerr;
+                          t_treediff : list path }.
 
 Definition claim_paths (cl : claim) : list path :=
   match cl with
@@ -315,11 +318,11 @@ Definition claim_holds (cs : ctable) (cl : claim) (o n : tree) : bool :=
 Definition errs_eqb : list cerr -> list cerr -> bool := list_eqb cerr_eqb.
 
 (* correspondence: the model, run on the two trees, returns exactly the observed error list
-   (constraint, path, type, in order) and the observed result of ignoring the claimed path; the trees are well-formed; the claim is true of the trees *)
+   (constraint, path, type, in order) and the observed result of ignoring the claimed path; the trees are well-formed and equal to the transcription of buildTree; the claim is true of the trees *)
 Definition agrees (t : trace) : bool :=
   errs_eqb (check_compat constrains (t_old t) (t_new t)) (t_errs t) &&
   errs_eqb (ignore_errors (claim_paths (t_claim t)) (t_errs t)) (t_ignored t) &&
-  wfb (t_old t) && wfb (t_new t) &&
+  wfb (t_old t) && wfb (t_new t) && is_nil (t_treediff t) &&
   claim_holds constrains (t_claim t) (t_old t) (t_new t).
 
 Definition reported_at (q : path) (errs : list cerr) : bool := existsb (fun e => path_eqb (e_path e) q) errs.
